@@ -3,7 +3,6 @@ package main
 import (
 	"context"
 	"fmt"
-	"sort"
 	"strconv"
 	"strings"
 
@@ -26,6 +25,7 @@ type dcol struct {
 	null    bool
 	def     string // literal default ("" = none)
 	comment string
+	vals    []string // replay stage: the enum's values (nil = a, b)
 }
 
 type didx struct {
@@ -42,6 +42,7 @@ type dfk struct {
 	ref     string // referenced table name
 	rschema *string
 	rcols   []string
+	ondel   string // replay stage: "" = CASCADE, setnull, noaction
 }
 
 type dchk struct{ name, expr string }
@@ -347,8 +348,10 @@ func (w *world) change(c dchange) schema.Change {
 // ---- quote-aware tokenizer: identifier chains of one statement
 
 type chain struct {
-	parts []string
-	prev  [3]string // the three words before the chain (upper-cased), nearest last
+	parts  []string
+	prev   [3]string // the three words before the chain (upper-cased), nearest last
+	end    int       // lexChains: byte offset after the chain
+	unterm bool      // lexChains: the last identifier of the chain has no closing quote
 }
 
 // chains extracts every quoted identifier chain (a.b.c) outside string literals, and
@@ -433,6 +436,7 @@ type planCfg struct {
 	indent string
 	marker string             // the connected schema's (unique) name
 	other  string             // a second schema
+	dev    string             // replay stage: the schema name of the dev database
 	ownOf  map[string]*string // table / enum / index / sequence name -> the schema it lives in
 }
 
@@ -449,7 +453,14 @@ func reverseStmts(c *migrate.Change) []string {
 	return nil
 }
 
+// caseNames: the names the generator handed out for the current case and their class
+// (names with special characters no longer carry a recognisable prefix).
+var caseNames map[string]string
+
 func classOfName(n string) string {
+	if cl, ok := caseNames[n]; ok {
+		return cl
+	}
 	switch {
 	case strings.HasSuffix(n, "_seq"):
 		return "seq"
@@ -626,9 +637,9 @@ func runPlanCase(w *out.W, id string, cfg planCfg, cs []dchange, expectReject bo
 		}
 		w.Violation(id, cls, fmt.Sprintf("%s: planned %d statement(s), first: %s", head, len(plan.Changes), oneLine(first)))
 	}
-	qo, qc, strq := byte('`'), byte('`'), "'\""
+	qo, qc := byte('`'), byte('`')
 	if cfg.pg {
-		qo, qc, strq = '"', '"', "'"
+		qo, qc = '"', '"'
 	}
 	inPlace := cfg.mode.Is(migrate.PlanModeInPlace)
 	n := 0
@@ -640,12 +651,12 @@ func runPlanCase(w *out.W, id string, cfg planCfg, cs []dchange, expectReject bo
 			if ri > 0 {
 				where = "reverse"
 			}
-			chs, _ := chainsOf(st, qo, qc, strq)
+			chs, lits, inLits := judgeLex(w, id, head, where, st, cfg)
 			obs = append(obs, join(map[bool]string{false: "c", true: "r"}[ri > 0], stmtHead(st), refChains(chs, cfg.pg)))
-			w.NonTrivial(dial + "|" + opt(cfg.q) + "|" + stmtShape(st, qo, qc))
+			w.NonTrivial(dial + "|" + qclass(cfg.q) + "|" + stmtShape(st, qo, qc))
 			if cfg.q == nil {
 				// no qualifier requested: references carry the object's own schema
-				checkChains(w, id, head, where, st, chs, cfg, cfg.marker, true)
+				checkChains(w, id, head, where, st, append(chs[:len(chs):len(chs)], inLits...), cfg, cfg.marker, true)
 				continue
 			}
 			if fromMS && inPlace {
@@ -657,10 +668,10 @@ func runPlanCase(w *out.W, id string, cfg planCfg, cs []dchange, expectReject bo
 					w.Violation(id, "schema-statement", fmt.Sprintf("%s: %s statement %s", head, where, oneLine(st)))
 				}
 			}
-			if strings.Contains(st, cfg.marker) {
+			if mentions(st, cfg.marker, chs, lits) {
 				w.Violation(id, "marker-leak", fmt.Sprintf("%s: %s statement mentions the schema name %s: %s", head, where, cfg.marker, oneLine(st)))
 			}
-			checkChains(w, id, head, where, st, chs, cfg, *cfg.q, false)
+			checkChains(w, id, head, where, st, append(chs[:len(chs):len(chs)], inLits...), cfg, *cfg.q, false)
 		}
 	}
 	if skel && cfg.mode != migrate.PlanModeUnsortedDump {
@@ -701,9 +712,7 @@ func unsortedObs(cfg planCfg, cs []dchange) (obs []string, ok bool) {
 	}}
 	var plan *migrate.Plan
 	var err error
-	qo, qc, strq := byte('`'), byte('`'), "'\""
 	if cfg.pg {
-		qo, qc, strq = '"', '"', "'"
 		plan, err = postgres.DefaultPlan.PlanChanges(context.Background(), "p", real, opts...)
 	} else {
 		plan, err = mysql.DefaultPlan.PlanChanges(context.Background(), "p", real, opts...)
@@ -713,7 +722,7 @@ func unsortedObs(cfg planCfg, cs []dchange) (obs []string, ok bool) {
 	}
 	for _, c := range plan.Changes {
 		for ri, st := range append([]string{c.Cmd}, reverseStmts(c)...) {
-			chs, _ := chainsOf(st, qo, qc, strq)
+			chs, _, _ := lexChains(repairKnown(st, cfg), cfg.pg)
 			obs = append(obs, join(map[bool]string{false: "c", true: "r"}[ri > 0], stmtHead(st), refChains(chs, cfg.pg)))
 		}
 	}
@@ -751,6 +760,17 @@ func stmtShape(st string, qo, qc byte) string {
 // reference position, is qualified by exactly want ("" = no schema component); with
 // own = true (no qualifier requested) by the schema the object lives in.
 func checkChains(w *out.W, id, head, where, st string, chs []chain, cfg planCfg, want string, own bool) {
+	// round 3: a chain in an object position must name an object of the change set (a
+	// qualifier glued into the name, or a mangled name, is not a reference to it)
+	for k, cl := range refPositions(st, chs, cfg.pg) {
+		found := false
+		for _, p := range chs[k].parts {
+			found = found || classOfName(p) == cl
+		}
+		if !found {
+			w.Violation(id, "reference-unrecognised-"+cl, fmt.Sprintf("%s: %s statement: the chain %q stands where a %s is referenced and names no %s of the change set: %s", head, where, chs[k].parts, cl, cl, oneLine(st)))
+		}
+	}
 	for _, c := range chs {
 		for k, p := range c.parts {
 			cl := classOfName(p)
@@ -768,7 +788,12 @@ func checkChains(w *out.W, id, head, where, st string, chs []chain, cfg planCfg,
 				exp = ""
 				name := p
 				if cl == "seq" {
-					name = strings.SplitN(p, "_c_", 2)[0]
+					name = ""
+					for k := range cfg.ownOf { // <table>_<column>_seq
+						if strings.HasPrefix(p, k+"_") && len(k) > len(name) {
+							name = k
+						}
+					}
 				}
 				if s, ok := cfg.ownOf[name]; ok && s != nil {
 					exp = *s
@@ -791,6 +816,55 @@ func checkChains(w *out.W, id, head, where, st string, chs []chain, cfg planCfg,
 	}
 }
 
+// refPositions: the chains of the statement that stand in an object-reference position, by
+// index, with the class of object referenced there (statement heads of the two planners).
+func refPositions(st string, chs []chain, pg bool) map[int]string {
+	pos := map[int]string{}
+	if len(chs) == 0 {
+		return pos
+	}
+	h := stmtHead(st)
+	switch h {
+	case "CREATE_TABLE", "DROP_TABLE", "ALTER_TABLE", "RENAME_TABLE":
+		pos[0] = "table"
+	case "ALTER_INDEX":
+		pos[0] = "index"
+	case "DROP_INDEX":
+		if pg {
+			pos[0] = "index"
+		}
+	case "CREATE_TYPE", "DROP_TYPE", "ALTER_TYPE":
+		pos[0] = "type"
+	case "CREATE_SEQUENCE", "DROP_SEQUENCE":
+		pos[0] = "seq"
+	case "COMMENT_ON":
+		switch chs[0].prev[2] {
+		case "TABLE", "COLUMN":
+			pos[0] = "table"
+		case "INDEX":
+			pos[0] = "index"
+		case "TYPE":
+			pos[0] = "type"
+		}
+	}
+	for k, c := range chs {
+		p := c.prev
+		switch {
+		case p[2] == "REFERENCES":
+			pos[k] = "table"
+		case p[2] == "TO" && p[1] == "RENAME" && (h == "ALTER_TABLE" || h == "RENAME_TABLE"):
+			pos[k] = "table"
+		case p[2] == "TO" && p[1] == "<id>" && h == "RENAME_TABLE":
+			pos[k] = "table"
+		case p[2] == "ON" && (h == "CREATE_INDEX" || h == "DROP_INDEX"):
+			pos[k] = "table"
+		case p[2] == "BY" && p[1] == "OWNED":
+			pos[k] = "table"
+		}
+	}
+	return pos
+}
+
 // ---- generator
 
 type gen struct {
@@ -801,11 +875,75 @@ type gen struct {
 	marker  string
 	other   string
 	n       int
+	names   map[string]string // name -> class ("" = column / constraint / ...)
+	shapeOf map[string]string // name prefix -> shape every such name gets (sweep)
+	rshape  int               // random shapes: 1 name in rshape is shaped (0 = never)
+	noQuote bool              // no shape that the planners are known to mis-write (quote char, backslash)
+}
+
+func classOfPrefix(p string) string {
+	switch p {
+	case "t_":
+		return "table"
+	case "e_":
+		return "type"
+	case "i_":
+		return "index"
+	}
+	return ""
+}
+
+// shaped applies a shape to a fresh plain word and registers the result.
+func (g *gen) shaped(base, shp, class string) string {
+	if g.names == nil {
+		g.names = map[string]string{}
+	}
+	n := base
+	switch shp {
+	case "", "plain":
+	case "keyword":
+		for _, k := range keywords {
+			if _, used := g.names[k]; !used {
+				n = k
+				break
+			}
+		}
+	default:
+		n = shapeByName(shp).f(base, g.pg)
+	}
+	g.names[n] = class
+	return n
+}
+
+func (g *gen) pickShape() string {
+	if g.rshape == 0 || g.r.Intn(g.rshape) != 0 {
+		return "plain"
+	}
+	for {
+		s := rng.Pick(g.r, append([]string{"keyword"}, shapeNames()...))
+		if g.noQuote && (s == "quote" || s == "backslash") {
+			continue
+		}
+		return s
+	}
+}
+
+func shapeNames() []string {
+	var ns []string
+	for _, s := range shapes {
+		ns = append(ns, s.name)
+	}
+	return ns
 }
 
 func (g *gen) name(p string) string {
 	g.n++
-	return fmt.Sprintf("%s%c%d", p, 'a'+byte(g.r.Intn(6)), g.n)
+	base := fmt.Sprintf("%s%c%d", p, 'a'+byte(g.r.Intn(6)), g.n)
+	shp, ok := g.shapeOf[p]
+	if !ok {
+		shp = g.pickShape()
+	}
+	return g.shaped(base, shp, classOfPrefix(p))
 }
 
 func (g *gen) col(sch *string) dcol {
@@ -850,7 +988,7 @@ func (g *gen) tab(sch *string, prefix string) dtab {
 		t.idx = append(t.idx, g.idx(t))
 	}
 	if g.r.Chance(1, 3) {
-		t.chks = append(t.chks, dchk{g.name("k_"), "(" + t.cols[0].name + " > 0)"})
+		t.chks = append(t.chks, dchk{g.name("k_"), "(" + quoteIdent(t.cols[0].name, g.pg) + " > 0)"})
 	}
 	if g.r.Chance(1, 3) {
 		t.comment = "table note"
@@ -942,13 +1080,13 @@ func (g *gen) subs(t dtab, others []dtab) []dsub {
 			s.fk2 = s.fk
 			s.fk2.rcols = []string{ref.cols[len(ref.cols)-1].name}
 		case "AK", "DK":
-			s.chk = dchk{g.name("k_"), "(" + c0.name + " <> 3)"}
+			s.chk = dchk{g.name("k_"), "(" + quoteIdent(c0.name, g.pg) + " <> 3)"}
 			if g.r.Chance(1, 6) && s.k == "AK" {
 				s.chk.name = ""
 			}
 		case "MK":
-			s.chk = dchk{g.name("k_"), "(" + c0.name + " <> 3)"}
-			s.chk2 = dchk{s.chk.name, "(" + c0.name + " <> 4)"}
+			s.chk = dchk{g.name("k_"), "(" + quoteIdent(c0.name, g.pg) + " <> 3)"}
+			s.chk2 = dchk{s.chk.name, "(" + quoteIdent(c0.name, g.pg) + " <> 4)"}
 		case "APK", "DPK":
 			s.pk = []string{t.cols[0].name}
 		case "MPK":
@@ -1045,7 +1183,7 @@ func (g *gen) changeSet(sch *string, cross string) ([]dchange, string) {
 }
 
 func runPlan(w *out.W, tier string, skel bool) {
-	w.Rule = "distinct (dialect, qualifier, statement form) triples seen in planned Cmd / reverse statements (identifiers and numbers blanked)"
+	w.Rule = "distinct (dialect, qualifier class, statement form) triples seen in planned Cmd / reverse statements (identifiers and numbers blanked)"
 	r := rng.FromEnv(0x9A17)
 	cnt := 6000
 	if tier == "thorough" {
@@ -1054,17 +1192,22 @@ func runPlan(w *out.W, tier string, skel bool) {
 	modes := []migrate.PlanMode{migrate.PlanModeUnset, migrate.PlanModeInPlace, migrate.PlanModeDeferred, migrate.PlanModeDump, migrate.PlanModeUnsortedDump}
 	for i := 0; i < cnt; i++ {
 		g := &gen{r: r, pg: i%2 == 1, skel: skel}
-		g.marker = fmt.Sprintf("mkr%dx", 100+r.Intn(900))
-		g.other = fmt.Sprintf("oth%dx", 100+r.Intn(900))
+		// round 3: one case in three draws names, schema names and qualifiers with special
+		// characters (one name in three shaped)
+		if i%3 == 0 {
+			g.rshape = 3
+		}
+		g.marker = g.shaped(fmt.Sprintf("mkr%dx", 100+r.Intn(900)), g.pickShape(), "")
+		g.other = g.shaped(fmt.Sprintf("oth%dx", 100+r.Intn(900)), g.pickShape(), "")
 		cfg := planCfg{pg: g.pg, marker: g.marker, other: g.other, mode: modes[r.Intn(len(modes))]}
 		if skel && r.Bool() {
 			cfg.mode = migrate.PlanModeUnsortedDump
 		}
-		switch i % 3 {
+		switch (i / 3) % 3 {
 		case 1:
 			cfg.q = sp("")
 		case 2:
-			cfg.q = sp(fmt.Sprintf("qz%d", r.Intn(100)))
+			cfg.q = sp(g.shaped(fmt.Sprintf("qz%d", r.Intn(100)), g.pickShape(), ""))
 		}
 		if r.Chance(1, 3) {
 			cfg.indent = "  "
@@ -1089,9 +1232,127 @@ func runPlan(w *out.W, tier string, skel bool) {
 		if cross == "modifyschema" && cfg.mode.Is(migrate.PlanModeInPlace) && (cfg.q == nil || *cfg.q == "" || *cfg.q == g.marker) {
 			expectReject = false
 		}
+		caseNames = g.names
 		runPlanCase(w, fmt.Sprintf("p%d", i), cfg, cs, expectReject, desc, skel)
 	}
-	_ = sort.Strings
+	runSweep(w, tier, skel)
+}
+
+// sweepKinds: one representative change set per change kind / ModifyTable sub-change kind.
+var sweepKinds = []string{"AT", "DT", "RT", "AO", "DO", "MO", "RO",
+	"MT:AC", "MT:DC", "MT:MC", "MT:RC", "MT:AI", "MT:DI", "MT:MI", "MT:RI", "MT:AF", "MT:DF", "MT:MF",
+	"MT:AK", "MT:DK", "MT:MK", "MT:APK", "MT:DPK", "MT:MPK", "MT:ATC", "MT:MTC"}
+
+// sweepPos: which names of the case get the shape ("q" = the requested qualifier, "s" = the
+// connected schema's name, else a name prefix).
+var sweepPos = []string{"q", "s", "t_", "e_", "i_", "c_", "f_", "k_"}
+
+// single draws a change set with exactly one change of the given kind on a table that has
+// columns of every type, indexes, a check, comments and a foreign key to a second table.
+func (g *gen) single(sch *string, kind string, variant int) ([]dchange, string) {
+	ref := g.tab(sch, "t_")
+	t := dtab{schema: sch, name: g.name("t_"), comment: "table note"}
+	t.cols = []dcol{
+		{name: g.name("c_"), typ: "int"},
+		{name: g.name("c_"), typ: "text", null: true, comment: "note 1"},
+		{name: g.name("c_"), typ: "enum", enum: g.name("e_"), eschema: sch},
+		{name: g.name("c_"), typ: "int", null: true},
+	}
+	t.pk = []string{t.cols[0].name}
+	t.idx = []didx{{name: g.name("i_"), cols: []string{t.cols[1].name}, comment: "idx note"}, {name: g.name("i_"), cols: []string{t.cols[3].name}, unique: true, uconst: g.pg}}
+	t.chks = []dchk{{g.name("k_"), "(" + quoteIdent(t.cols[0].name, g.pg) + " > 0)"}}
+	t.fks = []dfk{g.fkTo(t, ref)}
+	k, sub, _ := strings.Cut(kind, ":")
+	c := dchange{k: k, t: t, flag: variant%2 == 1}
+	switch k {
+	case "RT":
+		c.t2 = dtab{schema: sch, name: g.name("t_"), cols: t.cols}
+	case "MT":
+		// the random generator draws the sub-change; retry until it is of the wanted kind
+		for n := 0; ; n++ {
+			ss := g.subs(t, []dtab{ref})
+			if ss[0].k == sub {
+				c.subs = ss[:1]
+				break
+			}
+			if n > 2000 {
+				panic("sweep: no sub-change of kind " + sub)
+			}
+		}
+	case "AO", "DO", "MO", "RO":
+		c.ename, c.ename2, c.eschema = g.name("e_"), g.name("e_"), sch
+		c.vals, c.vals2 = []string{"a", "b"}, []string{"a", "b", "c"}
+	}
+	return []dchange{c}, "sweep," + kind
+}
+
+// runSweep: round 3, the systematic part: every shape (special characters, keywords) x every
+// position (qualifier, schema name, table / enum / index / column / constraint names) x every
+// change kind x qualifier {unset, "", custom} x dialect.
+func runSweep(w *out.W, tier string, skel bool) {
+	r := rng.FromEnv(0x5EE9)
+	variants := 1
+	if tier == "thorough" {
+		variants = 6
+	}
+	id := 0
+	shs := append([]string{"keyword"}, shapeNames()...)
+	for _, pg := range []bool{false, true} {
+		for _, shp := range shs {
+			if shp == "plain" {
+				continue
+			}
+			for _, pos := range sweepPos {
+				for _, kind := range sweepKinds {
+					if !pg && len(kind) == 2 && kind[1] == 'O' {
+						continue // enum objects: PostgreSQL only
+					}
+					for qi := 0; qi < 3; qi++ {
+						if pos == "q" && qi != 2 {
+							continue
+						}
+						for v := 0; v < variants; v++ {
+							id++
+							g := &gen{r: r, pg: pg, skel: skel, acyclic: true, shapeOf: map[string]string{}}
+							for _, p := range []string{"t_", "e_", "i_", "c_", "f_", "k_"} {
+								g.shapeOf[p] = "plain"
+							}
+							if len(pos) == 2 {
+								g.shapeOf[pos] = shp
+							}
+							ms, qs := "plain", "plain"
+							if pos == "s" {
+								ms = shp
+							}
+							if pos == "q" {
+								qs = shp
+							}
+							g.marker = g.shaped(fmt.Sprintf("mkr%dx", 100+r.Intn(900)), ms, "")
+							g.other = g.shaped(fmt.Sprintf("oth%dx", 100+r.Intn(900)), "plain", "")
+							cfg := planCfg{pg: pg, marker: g.marker, other: g.other, mode: migrate.PlanModeUnsortedDump}
+							if !skel {
+								cfg.mode = []migrate.PlanMode{migrate.PlanModeUnset, migrate.PlanModeInPlace, migrate.PlanModeDeferred}[(id+v)%3]
+							}
+							switch qi {
+							case 1:
+								cfg.q = sp("")
+							case 2:
+								cfg.q = sp(g.shaped(fmt.Sprintf("qz%d", r.Intn(100)), qs, ""))
+							}
+							if (id+v)%4 == 0 {
+								cfg.indent = "  "
+							}
+							cs, desc := g.single(sp(g.marker), kind, v+id)
+							caseNames = g.names
+							w.Count("sweep-shape:" + shp)
+							w.Count("sweep-pos:" + pos)
+							runPlanCase(w, fmt.Sprintf("w%d", id), cfg, cs, false, desc+","+shp+"@"+pos, skel)
+						}
+					}
+				}
+			}
+		}
+	}
 }
 
 // errClass: the error text with quoted names and numbers blanked (distribution only).
